@@ -182,7 +182,9 @@ func (z *Decimal) Add(x, y *Decimal) *Decimal {
 		// ±0 + ±0
 		z.acc = Exact
 		z.form = zero
-		z.neg = x.neg && y.neg // -0 + -0 == -0
+		// -0 + -0 == -0; an exact zero sum of opposite signs is +0, or -0
+		// when rounding ToNegativeInf (IEEE 754-2008, section 6.3)
+		z.neg = x.neg && y.neg || x.neg != y.neg && z.mode == ToNegativeInf
 		return z
 	}
 
@@ -1377,7 +1379,9 @@ func (z *Decimal) Sub(x, y *Decimal) *Decimal {
 		// ±0 - ±0
 		z.acc = Exact
 		z.form = zero
-		z.neg = x.neg && !y.neg // -0 - +0 == -0
+		// -0 - +0 == -0; an exact zero difference of like signs is +0, or -0
+		// when rounding ToNegativeInf (IEEE 754-2008, section 6.3)
+		z.neg = x.neg && !y.neg || x.neg == y.neg && z.mode == ToNegativeInf
 		return z
 	}
 
